@@ -114,13 +114,26 @@ TDeser == IsEvent("Deser") /\ LET e == Log[l]  b == bl[e.blob] IN
              /\ Chk("C09:estimator-state", e.r.kxps = b.scal.kxps /\ e.r.hips = b.scal.hips /\ e.r.est = b.scal.est)
              /\ Chk("C09:bounds", e.r.lb = b.scal.lb /\ e.r.ub = b.scal.ub)
              /\ Chk("C09:consumed", e.consumed = b.size)
-             /\ Chk("C09:reserialize", e.reimg = b.img)
+             /\ (Has(e, "reimg") => Chk("C09:reserialize", e.reimg = b.img))
              /\ icon' = Learn(icon, obj'[e.dst], e.r.est)
              /\ last' = (e.dst :> e.r.est) @@ last
              /\ UNCHANGED bl
 
+\* serialize() of a restored, not yet updated object as an event of its own: the same image, readable with the segment's seed
+TReser == IsEvent("Reser") /\ LET e == Log[l] IN
+             /\ e.id \in Live
+             /\ Chk("C09:reserialize", e.reimg = bl[e.blob].img)
+             /\ Chk("C09:reserialized-image-readable-with-the-seed", e.readable)
+             /\ UNCHANGED <<obj, uni, blob, bl, icon, last>>
+\* update(sketch of another seed), non-empty: the call is refused (throws) and leaves no trace - the model state is unchanged and
+\* every later result of this union is checked against it
+TURefused == IsEvent("URefused") /\ LET e == Log[l] IN
+             /\ e.u \in ULive
+             /\ Chk("foreign-seed-operand-refused", e.C > 0 => e.threw)
+             /\ UNCHANGED <<obj, uni, blob, bl, icon, last>>
+
 TInit == Init /\ l = 1 /\ bl = <<>> /\ icon = <<>> /\ last = <<>>
 TNext == TBegin \/ TNew \/ TUpdate \/ TUpdateMany \/ TUpdateIgnored \/ TObs \/ TCopy
-         \/ TUNew \/ TUUpdate \/ TUCopy \/ TUResult \/ TSer \/ TDeser
+         \/ TUNew \/ TUUpdate \/ TUCopy \/ TUResult \/ TSer \/ TDeser \/ TReser \/ TURefused
 TSpec == TInit /\ [][TNext]_tvars
 ====
